@@ -1,5 +1,6 @@
 import BarterModel.Lemmas.Stale
 import BarterModel.Lemmas.Orders
+import BarterModel.Lemmas.KernelsAgree.RegistersSM
 /-!
 # C09 — Late or duplicate exchange messages never roll engine state back
 
@@ -425,5 +426,26 @@ theorem cancel_err_restores_latest_confirmed (m : Orders) (c : Nat) (q p : Rat) 
 example : deliver false none [((3 : Int), (1 : Nat)), (5, 2), (4, 3), (5, 4), (1, 5)] = some (5, 4) := by decide
 example : deliver true none [((3 : Int), (1 : Nat)), (5, 2), (4, 3), (5, 4), (1, 5)] = some (5, 2) := by decide
 example : remZero 10 ⟨7, 2, 5⟩ = false := by decide +kernel
+
+/-- **Tie of the registers to the source by translation.** `AssetState::update_from_balance` (with
+`Snapshot::value`, `TearSheetAssetGenerator::update_from_balance`), `DefaultInstrumentMarketData::{price,
+process}` (with `OrderBookL1::volume_weighed_mid_price`, `volume_weighted_mid_price`) and the structs
+they work on are regenerated from the current `barter/src/engine/state/asset/mod.rs`,
+`barter/src/engine/state/instrument/data.rs` (+ balance.rs, snapshot.rs, summary/asset.rs,
+books/mod.rs, subscription/book.rs, event.rs) by `tools/rust2lean_sm.py` on every run
+(`Generated/Machines2.lean`, group `registers`). For all states, messages and key types: the held
+balance after `update_from_balance` is `upd false` of the held balance (read through the bijection
+`ofHeld`), `asset` is untouched and `statistics` is fed exactly the accepted snapshots (and agrees with
+the C16 / C18 models of the asset tear sheet); on the embedding `toMD` of the model's `MarketData` the
+trade arm of `process` is `MarketData.trade` (`upd true`) on the price `Decimal::from_f64` returns — for
+every such function — and a no-op when it returns `None`, the L1 arm is `MarketData.bookL1` under the
+model's documented precondition (event times on a fresh instrument are after the Unix epoch; see
+`RegistersSM.process_l1_at_or_before_epoch` for the boundary), every other kind changes nothing, and
+`price` is C15's `Unrealised.price`. The open-order guards of `engine/state/order/mod.rs` are not whole
+functions and are not translated. The statement is that of
+`KernelsAgree.RegistersSM.registers_sm_agree` (Lemmas/KernelsAgree/RegistersSM.lean). -/
+theorem state_machine_agrees_with_source :
+    type_of% BarterModel.KernelsAgree.RegistersSM.registers_sm_agree :=
+  BarterModel.KernelsAgree.RegistersSM.registers_sm_agree
 
 end BarterModel.Props.C09
